@@ -144,6 +144,8 @@ def judge_cell(ctx, r, stage):
     key = kf_key(r["cls"], r["dim"], r["path"], r["N"])
     if r.get("history"):
         key += ":history=" + hist_tag(r["history"])
+    if r.get("len_scale", LEN_SCALE) != LEN_SCALE:
+        key += ":len_scale=%g" % r["len_scale"]
     if "error" in r:
         ctx.violation(stage, "generator construction failed: %s" % r["error"], r, key=key + ":error")
         return False
@@ -1077,6 +1079,258 @@ def srf_history_probe(ctx, rng, thorough):
     return n_h, n_c
 
 
+
+# ----------------------------------------------------------------------------------------- upscaling + entry points
+def _pv_variants(rng, n, shape):
+    """point_volumes in the input classes a caller passes: python float / int, numpy scalar, 0-d array, per-point array"""
+    v = float(rng.uniform(0.05, 30.0))
+    return [("float", v), ("int", int(rng.integers(1, 9))), ("np.float64", np.float64(v)), ("0-d array", np.array(v)),
+            ("array", rng.uniform(0.05, 30.0, size=shape)), ("float32 array", rng.uniform(0.05, 30.0, size=shape).astype(np.float32))]
+
+
+def corr_upscaling(ctx, drv, rng, n_cases, broken):
+    """SRF.__call__(pos, point_volumes=V) with upscaling 'no_scaling' / 'coarse_graining', nugget on/off, all generators:
+    two fresh objects with the same seed, one called without and one with point_volumes; expected
+    with = (without - mean) * upscale_factor(scaled_var) + mean, scaled_var from the extracted model; 'no_scaling' must return
+    the very same field (C01_no_scaling_identity)"""
+    import gstools as gs
+    gens = ["RandMeth", "Fourier", "VectorField"]
+    for it in range(n_cases):
+        gname = gens[it % 3]
+        dim = 2 if gname == "VectorField" else int(rng.integers(1, 4))
+        kind = ["Gaussian", "Exponential"][int(rng.integers(2))]
+        m, meta = _model_for(rng, dim, kind)
+        m.nugget = float([0.0, rng.uniform(0.2, 1.5)][it // 3 % 2])
+        meta["nugget"] = m.nugget
+        ups = ["no_scaling", "coarse_graining"][int(rng.integers(2)) if m.nugget == 0 else it % 2]
+        mean = 0.0 if gname == "VectorField" else float(rng.choice([0.0, rng.normal() * 2]))
+        gk = _gen_kwargs(rng, m, gname)
+        gk["mode_no"] = [4] * dim if gname == "Fourier" else 12
+        seed = int(rng.integers(1, 2 ** 31 - 1))
+        structured = bool(rng.random() < 0.3)
+        if structured:
+            pos = [np.sort(rng.uniform(-10, 10, size=int(rng.integers(1, 4)))) for _ in range(dim)]
+            shape = tuple(len(p) for p in pos)
+            mt = "structured"
+        else:
+            npt = int(rng.choice([1, 2, 6]))
+            pos = [rng.uniform(-10, 10, size=npt) for _ in range(dim)]
+            shape = (npt,)
+            mt = "unstructured"
+        ref = np.asarray(gs.SRF(m, mean=mean, generator=gname, seed=seed, upscaling=ups, **gk)(pos, mesh_type=mt), dtype=float)
+        for tag, pv in _pv_variants(rng, int(np.prod(shape)), shape):
+            case = dict(meta, generator=gname, generator_kwargs={k: (v if np.isscalar(v) else list(map(float, v))) for k, v in gk.items()},
+                        seed=seed, mean=mean, upscaling=ups, mesh_type=mt, pos=[p.tolist() for p in pos],
+                        point_volumes_class=tag, point_volumes=np.asarray(pv, dtype=float).tolist())
+            ctx.count(("upscaling", gname, ups, tag, m.nugget > 0, mt), hist=dict(upscaling=ups, upscaling_pv=tag, corr_generator=gname))
+            try:
+                import warnings
+                with warnings.catch_warnings():
+                    warnings.simplefilter("ignore")
+                    out = np.asarray(gs.SRF(m, mean=mean, generator=gname, seed=seed, upscaling=ups, **gk)(pos, mesh_type=mt, point_volumes=pv), dtype=float)
+            except Exception as e:
+                ctx.violation("probe: upscaling entry", "SRF(generator=%r, upscaling=%r)(pos, point_volumes=<%s>) raised %s: %s" % (
+                    gname, ups, tag, type(e).__name__, str(e)[:160]), case,
+                    key="upscaling:%s:%s:%s:%s" % (ups, gname, "per-point point_volumes" if "array" in tag and tag != "0-d array" else tag, type(e).__name__))
+                continue
+            pvs = np.broadcast_to(np.asarray(pv, dtype=float), shape).ravel()
+            if ups == "no_scaling":
+                sv = np.array([drv.call("var_no_scaling", float(m.var), float(m.nugget))] * pvs.size)
+            else:
+                sv = np.array([drv.call("var_coarse_graining", ("z", dim), float(m.len_scale), float(m.var), float(m.nugget), float(x)) for x in pvs])
+            fac = np.array([drv.call("upscale_factor", float(x), float(m.var), float(m.nugget)) for x in sv]).reshape(shape)
+            expect = (ref - mean) * fac + mean
+            scale = float(np.max(np.abs(ref))) + abs(mean) + 1e-300
+            # float32 volumes are raised to 1/dim in single precision by numpy: 2^-23 relative on the factor
+            tol = 4e-7 if "float32" in tag and ups == "coarse_graining" else 1e-13
+            if out.shape != ref.shape or not np.all(np.abs(out - expect) <= tol * scale):
+                what = ("upscaling 'no_scaling' changed the field" if ups == "no_scaling" else "coarse-graining factor differs from sill*(l^2/(l^2+edge^2/4))^(d/2)")
+                case.update(field_without=ref.ravel().tolist(), field_with=out.ravel().tolist(), expected=expect.ravel().tolist())
+                i0 = int(np.argmax(np.abs(out - expect)))
+                ratio = float((out.ravel()[i0] - mean) / (ref.ravel()[i0] - mean if ref.ravel()[i0] != mean else 1.0))
+                ctx.violation("probe: upscaling entry",
+                              "%s, %s, nugget %.3g, point_volumes (%s): %s — field with point_volumes / field without = %.6g, model factor %.6g; "
+                              "pointwise variance is %.4g x (var + nugget) instead of %.4g x" % (
+                                  gname, ups, m.nugget, tag, what, ratio, float(fac.ravel()[i0]), ratio ** 2, float(fac.ravel()[i0]) ** 2),
+                              case, key="upscaling:%s:%s:nugget%s" % (ups, gname, ">0" if m.nugget > 0 else "=0"))
+                break
+
+
+def _tri_mesh(rng, dim):
+    import meshio
+    n = int(rng.integers(4, 8))
+    pts = rng.uniform(-10, 10, size=(n, dim))
+    if dim == 1:
+        cells = [("line", np.array([[i, i + 1] for i in range(n - 1)]))]
+    elif dim == 2:
+        cells = [("triangle", np.array([[i, i + 1, i + 2] for i in range(n - 2)])), ("line", np.array([[0, n - 1]]))]
+    else:
+        cells = [("tetra", np.array([[i, i + 1, i + 2, i + 3] for i in range(n - 3)]))]
+    return meshio.Mesh(pts, cells)
+
+
+def corr_entry_points(ctx, rng, n_cases, broken):
+    """rarely used public entry points give the field of the plain call on the same points (fresh objects, same seed):
+    srf.structured / srf.unstructured, srf.mesh(meshio mesh, points='points' / 'centroids', direction, point_volumes)"""
+    import gstools as gs
+    for it in range(n_cases):
+        dim = int(rng.integers(1, 4))
+        kind = ["Gaussian", "Exponential"][it % 2]
+        m, meta = _model_for(rng, dim, kind)
+        seed = int(rng.integers(1, 2 ** 31 - 1))
+        mk = lambda: gs.SRF(m, mean=0.3, mode_no=10, seed=seed)
+        ax = [np.sort(rng.uniform(-5, 5, size=int(rng.integers(1, 4)))) for _ in range(dim)]
+        pts = [rng.uniform(-5, 5, size=4) for _ in range(dim)]
+        checks = [("structured()", lambda: mk().structured(ax), lambda: mk()(ax, mesh_type="structured")),
+                  ("unstructured()", lambda: mk().unstructured(pts), lambda: mk()(pts, mesh_type="unstructured")),
+                  ("structured(pos=)", lambda: mk().structured(pos=ax), lambda: mk()(ax, mesh_type="structured"))]
+        mesh = _tri_mesh(rng, dim)
+        direction = "all" if rng.random() < 0.5 else "xyz"[:dim]
+        pv = float(rng.uniform(0.5, 5))
+        for points in ("points", "centroids"):
+            if points == "points":
+                pnts = mesh.points.T
+            else:
+                pnts = np.hstack([mesh.points[c.data].mean(axis=1).T for c in mesh.cells])
+            def via_mesh(points=points):
+                s = mk()
+                s.mesh(mesh, points=points, direction=direction, name="f", point_volumes=pv)
+                data = mesh.point_data["f"] if points == "points" else np.concatenate([np.ravel(a) for a in mesh.cell_data["f"]])
+                return np.asarray(data, dtype=float)
+            checks.append(("mesh(points=%r, direction=%r, point_volumes)" % (points, direction), via_mesh,
+                           lambda pnts=pnts: mk()([pnts[d] for d in range(dim)], point_volumes=pv)))
+        for name, f_entry, f_plain in checks:
+            ctx.count(("entry", name.split("(")[0], dim), hist=dict(entry_point=name.split("(")[0] + ("(" + name.split("(")[1].split(",")[0] if "mesh" in name else "")))
+            case = dict(meta, entry=name, seed=seed, axes=[a.tolist() for a in ax], points=[p.tolist() for p in pts], mesh_points=mesh.points.tolist())
+            try:
+                a = np.asarray(f_entry(), dtype=float)
+                b = np.asarray(f_plain(), dtype=float)
+            except Exception as e:
+                broken.append(("SRF.%s raised %s: %s" % (name, type(e).__name__, str(e)[:150]), case))
+                continue
+            if a.shape != b.shape or not np.all(np.abs(a - b) <= 1e-12 * (np.max(np.abs(b)) + 1e-300)):
+                ctx.violation("probe: entry point", "SRF.%s differs from the plain call on the same points (fresh objects, same seed): %s vs %s" % (
+                    name, a.ravel()[:4].tolist(), b.ravel()[:4].tolist()), dict(case, entry_field=a.ravel().tolist(), plain_field=b.ravel().tolist()),
+                    key="entry:%s" % name.split("(")[0])
+
+
+# ----------------------------------------------------------------------------------------- scale equivariance
+ARMED_SCALES = (-20, -10, 10, 14)          # L = 2^e: exact in floating point; 2^-20 ~ 1e-6, 2^14 ~ 1.6e4
+BROKEN_SCALES = (20, 27)                   # known finding: absolute |k| < 1e-8 masks (spectral_rad_pdf, Integral, HyperSpherical, hankel)
+ANALYTIC = ("Gaussian", "Exponential", "Matern", "Integral", "HyperSpherical", "JBessel", "TPLGaussian", "TPLExponential")
+
+
+def _scaled_model(cls, dim, L, opts, **kw):
+    import gstools as gs
+    o = dict(opts)
+    if "len_low" in o:
+        o["len_low"] = o["len_low"] * L
+    return getattr(gs, cls)(dim=dim, len_scale=1.5 * L, **o, **kw)
+
+
+def spectral_scale_errors(cls, dim, e, opts):
+    """relative errors of  S_L(k/L) = L^d S_1(k),  pdf_L(k/L) = L pdf_1(k),  cdf_L(r/L) = cdf_1(r),  L ppf_L(u) = ppf_1(u)  for L = 2^e"""
+    L = 2.0 ** e
+    m1, mL = _scaled_model(cls, dim, 1.0, opts), _scaled_model(cls, dim, L, opts)
+    kg = np.array([0.0, 1e-3, 0.03, 0.3, 1.0, 3.0, 10.0] if cls in ANALYTIC else [1e-3, 0.03, 0.3, 1.0, 3.0, 10.0])
+    out = {}
+    for fn, sc in (("spectral_density", L ** dim), ("spectral_rad_pdf", L), ("spectrum", L ** dim)):
+        a = np.asarray(getattr(mL, fn)(kg / L), dtype=float)
+        b = np.asarray(getattr(m1, fn)(kg), dtype=float) * sc
+        out[fn] = (float(np.max(np.abs(a - b)) / max(np.max(np.abs(b)), 1e-300)), kg.tolist(), a.tolist(), b.tolist())
+    if m1.has_cdf:
+        a, b = np.asarray(mL.spectral_rad_cdf(kg / L), dtype=float), np.asarray(m1.spectral_rad_cdf(kg), dtype=float)
+        out["spectral_rad_cdf"] = (float(np.max(np.abs(a - b))), kg.tolist(), a.tolist(), b.tolist())
+    if m1.has_ppf:
+        u = np.array([0.0, 1e-9, 0.01, 0.5, 0.99, 1 - 1e-9])
+        a, b = np.asarray(mL.spectral_rad_ppf(u), dtype=float) * L, np.asarray(m1.spectral_rad_ppf(u), dtype=float)
+        ok = np.isfinite(b)
+        err = float(np.max(np.abs(a[ok] - b[ok]) / np.maximum(np.abs(b[ok]), 1e-300))) if (np.isfinite(a) == ok).all() else float("inf")
+        out["spectral_rad_ppf"] = (err, u.tolist(), a.tolist(), b.tolist())
+    return out
+
+
+def scale_probe(ctx, rng, thorough):
+    """exact scale equivariance (C01_randmeth_scale_equivariant, C01_spectral_scaling, C01_radial_distribution_scaling), deterministic:
+    (i) spectral functions of model(len_scale L l) at k / L against model(len_scale l) at k, L = 2^e, all classes x valid dims;
+    (ii) fields: SRF(model(L l), seed)(L pos) == SRF(model(l), seed)(pos) for the analytic-spectrum classes, three generators."""
+    import gstools as gs
+    n = 0
+    known_bad = []
+    for cls in CLASSES:
+        reported = False
+        for dim in (1, 2, 3):
+            if not getattr(gs, cls)(dim=dim).check_dim(dim):
+                continue
+            for opts in ({}, OPT_ARGS.get(cls, {})) if OPT_ARGS.get(cls) else ({},):
+                for e in ARMED_SCALES + (BROKEN_SCALES if cls in ANALYTIC else ()):
+                    if reported:
+                        continue
+                    res = spectral_scale_errors(cls, dim, e, opts)
+                    n += 1
+                    ctx.count(("scale-spectral", cls, dim, e, bool(opts)), hist=dict(scale_class=cls, scale_exponent=e))
+                    for fn, (err, arg, a, b) in res.items():
+                        if not err <= 1e-12:
+                            if e in BROKEN_SCALES:
+                                known_bad.append((cls, dim, e, fn, err))
+                                continue
+                            ctx.violation("probe: scale equivariance",
+                                          "%s(dim=%d, %s): %s of the model with len_scale 2^%d * 1.5 at k / 2^%d differs from the scaled value of the model with "
+                                          "len_scale 1.5 at k (relative %.3g): %s vs %s at %s" % (cls, dim, opts, fn, e, e, err, a, b, arg),
+                                          dict(cls=cls, dim=dim, opts=opts, exponent=e, function=fn, arg=arg, scaled_model=a, reference=b),
+                                          key="scale-equivariance:%s:%s" % (cls, fn))
+                            reported = True
+                            break
+    if known_bad:
+        c = known_bad[0]
+        ctx.violation("probe: scale equivariance",
+                      "absolute zero masks |k| < 1e-8: %d (class, dim, L, function) cases with len_scale >= 2^20 are not scale equivariant, e.g. %s dim %d "
+                      "L = 2^%d %s relative error %.3g" % (len(known_bad), c[0], c[1], c[2], c[3], c[4]),
+                      dict(cases=[list(map(str, x)) for x in known_bad[:40]]), key="scale-equivariance:absolute-zero-mask-1e-8:len_scale>=2^20")
+    # (ii) fields
+    n_f = 0
+    for cls in ANALYTIC:
+        dims = [2, 3] if rng.random() < 0.8 else [1]
+        dim = int(rng.choice(dims))
+        scales = ARMED_SCALES if thorough else (14, int(rng.choice([-20, -10, 10])))
+        for gname in GEN_NAMES:
+            if gname == "VectorField" and dim == 1:
+                continue
+            opts = OPT_ARGS.get(cls, {}) if rng.random() < 0.5 else {}
+            kw = dict(var=float(rng.uniform(0.5, 2)), nugget=float(rng.choice([0.0, 0.3])))
+            if dim > 1:
+                kw.update(anis=[float(x) for x in rng.uniform(0.4, 1.2, size=dim - 1)], angles=[float(x) for x in rng.uniform(-1, 1, size=dim * (dim - 1) // 2)])
+            seed = int(rng.integers(1, 2 ** 31 - 1))
+            pos = rng.uniform(-6, 6, size=(dim, 5))
+            period = float(rng.uniform(12, 25))
+
+            def field(L):
+                m = _scaled_model(cls, dim, L, opts, **kw)
+                if gname == "Fourier":
+                    gk = dict(period=[period * L] * dim, mode_no=[6] * dim)
+                elif gname == "VectorField":
+                    gk = dict(mode_no=20, mean_velocity=0.7)
+                else:
+                    gk = dict(mode_no=20)
+                return np.asarray(gs.SRF(m, generator=gname, seed=seed, **gk)([L * pos[d] for d in range(dim)]), dtype=float)
+            ref = field(1.0)
+            for e in scales:
+                out = field(2.0 ** e)
+                n_f += 1
+                ctx.count(("scale-field", cls, dim, gname, e), hist=dict(scale_class=cls, scale_exponent=e, scale_generator=gname))
+                sc = float(np.max(np.abs(ref))) + 1e-300
+                if out.shape != ref.shape or not np.all(np.abs(out - ref) <= 1e-9 * sc):
+                    ctx.violation("probe: scale equivariance",
+                                  "%s / %s(dim=%d, %s, %s): SRF(model with len_scale 1.5 * 2^%d, seed=%d) on positions 2^%d * x differs from SRF(model with "
+                                  "len_scale 1.5, same seed) on x: %s vs %s — the generated field (hence its covariance) is not the scaled one" % (
+                                      gname, cls, dim, opts, kw, e, seed, e, out.ravel()[:4].tolist(), ref.ravel()[:4].tolist()),
+                                  dict(cls=cls, dim=dim, opts=opts, model_kwargs=kw, generator=gname, seed=seed, exponent=e, pos=pos.tolist(),
+                                       scaled_field=out.ravel().tolist(), reference_field=ref.ravel().tolist()),
+                                  key="scale-equivariance:field:%s:%s" % (gname, cls))
+                    break
+    return n, n_f
+
+
 # ----------------------------------------------------------------------------------------- run
 def load_local_known(ctx):
     """known_findings.json is assembled from known_findings.d/*.json by the coordinator; until then (and in any case)
@@ -1107,7 +1361,8 @@ def run(ctx):
                 "evaluated at 8 separations; correspondence cases = generator x class x dim x mode number x mesh type x nugget on/off; "
                 "ensembles = class x dim x nugget over seeds; SRF histories = generator x change kind x call kind (3-step) + random operation "
                 "sequences, each call compared with a fresh object; Fourier exact = class x option pair x period in 1-D; option cells = class x "
-                "option pair; a case is non-trivial with >= 2 modes and >= 2 points; "
+                "option pair; upscaling = generator x upscaling x point_volumes class x nugget; scale = class x dim x option x L (spectral) and class x "
+                "generator x L (fields); a case is non-trivial with >= 2 modes and >= 2 points; "
                 "distinct = distinct keys of those tuples")
     ctx.trusted = [
         "Coq 8.16.1 kernel (coqc); stdlib Reals axioms as printed per theorem",
@@ -1170,6 +1425,8 @@ def run(ctx):
                 corr_fourier(ctx, drv, rng, 16 * k, broken)
                 corr_incompr(ctx, drv, rng, 12 * k, broken)
                 corr_sampling(ctx, drv, rng, 16 * k, broken)
+                corr_upscaling(ctx, drv, rng, 12 * k, broken)
+                corr_entry_points(ctx, rng, 6 * k, broken)
             finally:
                 drv.close()
             C.log("[C01] correspondence: %d driver calls, %d disagreements (driver build + run %.1fs)" % (drv.calls, len(broken), time.time() - t0))
@@ -1187,6 +1444,9 @@ def run(ctx):
         t0 = time.time()
         n_fx = fourier_exact_probe(ctx, rng, thorough)
         C.log("[C01] Fourier exact covariance (class x option pair x small period, 1-D): %d configurations in %.1fs" % (n_fx, time.time() - t0))
+        t0 = time.time()
+        n_s, n_f = scale_probe(ctx, rng, thorough)
+        C.log("[C01] scale equivariance: %d spectral (class, dim, option, L) comparisons, %d field comparisons in %.1fs" % (n_s, n_f, time.time() - t0))
         t0 = time.time()
         n_h, n_c = srf_history_probe(ctx, rng, thorough)
         C.log("[C01] SRF operation histories: %d histories, %d comparisons with fresh objects in %.1fs" % (n_h, n_c, time.time() - t0))
